@@ -570,13 +570,13 @@ func c06rExcOtherFamilyShadows(tbl []c06rEntry, name string, qt uint16) bool {
 	return excOther && wildVal
 }
 
-// c06rCanonCoveredNoValue: the canonical name asked upstream is itself covered
-// by the table (no CNAME entry, no "A"/"AAAA" exception of the requested
-// type) and has no value of the requested type.  Asked directly such a name is
-// answered empty without an upstream call; reached through a CNAME rewrite the
-// unchanged code resolves it upstream (AGHTechDoc "Example: CNAME+A records"
-// documents "AAAA: CNAME = host.com" only).  REPORTED to the lead in round 4
-// (notes/fix-drafts/27-C06-*), counted as a class until decided, not judged.
+// c06rCanonCoveredNoValue: the canonical name is itself covered by the table
+// (no CNAME entry, no "A"/"AAAA" exception of the requested type) and has no
+// value of the requested type.  Asked directly such a name is answered empty
+// without an upstream call; reached through a CNAME rewrite it must get the
+// CNAME alone, not the upstream's records (AGHTechDoc "Example: CNAME+A
+// records": "AAAA: CNAME = host.com").  Found in round 4, repaired in /repo by
+// 2e58a5d (notes/fix-drafts/27-C06-*); judged by c06rMonitor since.
 func c06rCanonCoveredNoValue(tbl []c06rEntry, asked string, qt uint16) bool {
 	asked = strings.ToLower(asked)
 	matched := false
@@ -740,6 +740,20 @@ func c06rMonitor(tbl []c06rEntry, name string, qt uint16, o c06rObs) (ok bool, k
 		if o.res.Rcode != dns.RcodeSuccess {
 			return false, "rcode", "local answer with an error code"
 		}
+		// a CNAME alone is a complete answer only for a canonical name that
+		// the table itself covers; any other canonical name is resolved
+		// upstream
+		if len(o.res.Answer) == 1 {
+			if cn, isC := o.res.Answer[0].(*dns.CNAME); isC {
+				canon, covered := strings.ToLower(c06rTrim(cn.Target)), false
+				for _, e := range tbl {
+					covered = covered || c06rMatches(e.dom, canon)
+				}
+				if !covered {
+					return false, "cname-unresolved", fmt.Sprintf("the answer is the CNAME to %q alone although the table does not cover that name: it must be resolved upstream", canon)
+				}
+			}
+		}
 	} else {
 		c := o.calls[0]
 		asked := c06rTrim(c.Name)
@@ -781,6 +795,9 @@ func c06rMonitor(tbl []c06rEntry, name string, qt uint16, o c06rObs) (ok bool, k
 			}
 			if cVal && !cCname && !cExc {
 				return false, "table-value-ignored", fmt.Sprintf("upstream asked for %q although the table has a value of the requested type for it", asked)
+			}
+			if c06rCanonCoveredNoValue(tbl, asked, qt) {
+				return false, "cname-target-without-value", fmt.Sprintf("upstream asked for %q although the table covers that name without a value of the requested type: the answer must be the CNAME alone, as the name itself is answered empty", asked)
 			}
 		}
 	}
@@ -892,9 +909,6 @@ func TestVerifC06Resp(t *testing.T) {
 					if c06rExcOtherFamilyShadows(tb.entries, fin, qt) {
 						classes["resp-shadow-exc-other-family"] = true
 						if fin != strings.ToLower(h) {
-							// not reached on the unchanged code (not listed in
-							// props/C06.json): a canonical name without a value
-							// is resolved upstream, see c06rCanonCoveredNoValue
 							classes["resp-shadow-exc-other-family-via-cname"] = true
 						}
 					}
@@ -909,7 +923,14 @@ func TestVerifC06Resp(t *testing.T) {
 					classes["resp-local-answer"] = true
 					nontrivial = true
 					if _, isC := o.res.Answer[0].(*dns.CNAME); isC {
-						classes["resp-local-cname-addr"] = true
+						if len(o.res.Answer) == 1 {
+							classes["resp-local-cname-alone"] = true
+							if c06rCanonCoveredNoValue(tb.entries, c06rTrim(o.res.Answer[0].(*dns.CNAME).Target), qt) {
+								classes["resp-cname-target-covered-without-value"] = true
+							}
+						} else {
+							classes["resp-local-cname-addr"] = true
+						}
 					}
 				case !strings.EqualFold(c06rTrim(o.calls[0].Name), h):
 					classes["resp-cname-via-upstream"] = true
@@ -929,9 +950,6 @@ func TestVerifC06Resp(t *testing.T) {
 					}
 					if c06rHasUpper(c06rTrim(o.calls[0].Name)) {
 						classes["cname-upstream-mixed-case-name"] = true
-					}
-					if enabled && c06rCanonCoveredNoValue(tb.entries, c06rTrim(o.calls[0].Name), qt) {
-						classes["resp-cname-target-covered-without-value-upstream"] = true
 					}
 				default:
 					classes["resp-forwarded"] = true
